@@ -15,6 +15,7 @@ func init() {
 	register(&Property{
 		ID: "C19",
 		Explanation: "Decides in middleware/untyped/api.go, AddRoute and buildAuthenticators: R19.1 validate compares the right pairs (keys of consumers / producers / authenticators / \"METHOD path\" of operations / security definitions against the analyzer's RequiredConsumes / RequiredProduces / RequiredSecuritySchemes / OperationMethodPaths), runs all five comparisons on every successful validation, returns every failure, and verify examines every registration and every expectation without early exit, reports both lists and fails iff either is non-empty; " +
+			"Round 12: R19.1 no iteration over a registry skips the append that lists its key. " +
 			"R19.2 validation and serving read the same tables: the Register* functions are the only writers of those tables besides the constructor/JSON defaults, they normalise media types (ToLower) and methods (ToUpper) exactly as the readers do, and the request-time tables of a route are built from those readers; each alternative's scheme list is a fresh slice (alternatives never share backing storage); " +
 			"R19.3 the request-time failure sites for a missing registration are exactly the tabled ones (consumer miss x2 -> 500, producer miss x3 and produce error x2 -> panic in Respond), so a new one is reported. " +
 			"R19.2 also: the per-route consumer/producer tables are built from the route's own consumes/produces lists, and WithoutJSONDefaults undoes exactly what WithJSONDefaults installs. " +
